@@ -1126,7 +1126,12 @@ func Retract(vm *VM, t Term, k Cont, env *Env) *Promise {
 			continue // It belongs to the preceding clause.
 		}
 		c := c
-		raw := rulify(c.raw, env)
+		// The clause to unify with is a renamed copy so that the stored term stays as it is.
+		cp, err := renamedCopy(c.raw, nil, env)
+		if err != nil {
+			return Error(err)
+		}
+		raw := rulify(cp, env)
 		ks = append(ks, func(_ context.Context) *Promise {
 			return Unify(vm, t, raw, func(env *Env) *Promise {
 				// The database may have changed since the call. Look for the very clause we unified with.
